@@ -7,7 +7,7 @@ from vlib.engine import Outcome
 PROPERTY = 'C11'
 RULE = ('A real BP agent with a "forward" receive route and a transmit route receives a generated bundle from the '
         'independent RFC 9171 encoder: any multiset of previous-node (also with an unknown EID scheme, or opaque as under a BCB), hop-count (limit/count on CBOR head boundaries), '
-        'bundle-age and unknown extension blocks, CRC type per block, arbitrary unique block numbers with gaps, report '
+        'bundle-age and unknown extension blocks, CRC type per block, arbitrary unique block numbers with gaps (or, labelled, one number used twice: refused or put right, never forwarded as it is), report '
         'flags, creation time zero, in the past or slightly in the future; the virtual clock is advanced by a drawn amount before the '
         'forwarding idle callback runs.  Oracle on the octets handed to the convergence layer, parsed by the '
         'independent decoder: primary block octet-identical to the received one, payload identical, exactly one '
@@ -88,6 +88,7 @@ def bundle_specs():
         'cl_fails': st.sampled_from([False, False, False, False, True]),
         'src': strat.eids(allow_none=False), 'dest': st.sampled_from([['dtn', '//far/away'], ['ipn', 5, 6]]),
         'rpt': strat.eids(),
+        'dup_num': st.sampled_from([None, None, None, None, None, 'ext', 'payload']),
     })
 
 
@@ -126,6 +127,27 @@ def forward_one(node, case, out):
     bundle = {'primary': dict(version=7, flags=int(case['flags']), crc_type=case['pcrc'], dest=case['dest'], src=case['src'],
                               rpt=case['rpt'], ts=[ctime, int(case['seq'])], lifetime=int(case['lifetime']), frag=None),
               'blocks': blocks}
+    if case.get('dup_num') and len(blocks) >= 2:
+        # a received bundle in which one block number occurs twice (an extension block numbered like another one, or like
+        # the payload block): it may be refused, or forwarded with the numbering put right - never forwarded as it is
+        blocks[0]['num'] = blocks[1]['num'] if case['dup_num'] == 'ext' and len(blocks) >= 3 else 1
+        node.set_mtu(0, None)
+        node.receive(r.encode(bundle), run=False)
+        node.run()
+        node._seen_esc = list(node.escapes())
+        out.label('duplicate-block-number')
+        for data in node.sent()[n_before:]:
+            from vlib import cborpull as cb
+            try:
+                items = cb.parse(bytes(data)).value
+                nums_out = [blk.value[1].value for blk in items[1:]]
+            except Exception as exc:
+                out.fail('forwarded-not-wellformed', 'octets handed to the CL do not parse: %s' % exc)
+                continue
+            if len(set(nums_out)) != len(nums_out):
+                out.fail('forwarded-duplicate-block-numbers', 'a bundle received with one block number used twice left the node with block '
+                         'numbers %s' % nums_out)
+        return out
     wire_in = r.encode(bundle)
     din = r.decode(wire_in)
     mtu = case.get('mtu')
